@@ -24,20 +24,20 @@ import (
 // ---- ghost state (reset by the engine's roll-back between paths)
 
 var (
-	vsExec     []*Metadata // metadata handed to JobManager.execJob, in order
-	vsEnded    []*Metadata
-	vsWrites   []string // paths written
-	vsChunks   int      // number of chunk defs _stage_defs contains
-	vsDefsErr  bool     // _stage_defs unreadable
-	vsDisabled bool
-	vsResolveErr bool
-	vsOutsOK   bool
-	vsOutsMsg  bool
-	vsReadErr  bool
-	vsChunkOutOK bool
-	vsChunkBad   [3]bool // per chunk: outputs invalid
-	vsChunkNoOut [3]bool // per chunk: _outs unreadable
-	vsChunkMetas []*Metadata
+	vsExec             []*Metadata // metadata handed to JobManager.execJob, in order
+	vsEnded            []*Metadata
+	vsWrites           []string // paths written
+	vsChunks           int      // number of chunk defs _stage_defs contains
+	vsDefsErr          bool     // _stage_defs unreadable
+	vsDisabled         bool
+	vsResolveErr       bool
+	vsOutsOK           bool
+	vsOutsMsg          bool
+	vsReadErr          bool
+	vsChunkOutOK       bool
+	vsChunkBad         [3]bool // per chunk: outputs invalid
+	vsChunkNoOut       [3]bool // per chunk: _outs unreadable
+	vsChunkMetas       []*Metadata
 	vsChunkOutsWritten []LazyArgumentMap
 	vsChunkOutsSeen    bool
 	vsJournalFiles     []string
@@ -330,17 +330,17 @@ func (vsJobManager) execJob(shellCmd string, args []string, env map[string]strin
 	res *JobResources, fqname, shellName string, preflight bool) {
 	vsExec = append(vsExec, md)
 }
-func (vsJobManager) endJob(md *Metadata)                                         { vsEnded = append(vsEnded, md) }
+func (vsJobManager) endJob(md *Metadata)                                             { vsEnded = append(vsEnded, md) }
 func (vsJobManager) checkQueue(ids []string, ctx context.Context) ([]string, string) { return ids, "" }
-func (vsJobManager) hasQueueCheck() bool                                         { return false }
-func (vsJobManager) queueCheckGrace() time.Duration                          { return 0 }
-func (vsJobManager) refreshResources(localMode bool) error                       { return nil }
-func (vsJobManager) GetSystemReqs(r *JobResources) JobResources                  { return *r }
-func (vsJobManager) GetMaxCores() int                                            { return 1 }
-func (vsJobManager) GetMaxMemGB() int                                            { return 1 }
-func (vsJobManager) GetSettings() *JobManagerSettings                            { return nil }
-func (vsJobManager) resetMaxJobs()                                               {}
-func (vsJobManager) reattach(*Metadata)                                          {}
+func (vsJobManager) hasQueueCheck() bool                                             { return false }
+func (vsJobManager) queueCheckGrace() time.Duration                                  { return 0 }
+func (vsJobManager) refreshResources(localMode bool) error                           { return nil }
+func (vsJobManager) GetSystemReqs(r *JobResources) JobResources                      { return *r }
+func (vsJobManager) GetMaxCores() int                                                { return 1 }
+func (vsJobManager) GetMaxMemGB() int                                                { return 1 }
+func (vsJobManager) GetSettings() *JobManagerSettings                                { return nil }
+func (vsJobManager) resetMaxJobs()                                                   {}
+func (vsJobManager) reattach(*Metadata)                                              {}
 
 var _ = json.Marshal
 var _ = util.Timestamp
